@@ -283,7 +283,7 @@ pub fn gen_long(t: &mut Tape, with_hostile: bool) -> TokCase {
             }
             7 => src.push(' '),
             8 => src.push('\n'),
-            9 => src.push_str(t.s(&["é", "あ", "😀", "日本語", "ß"])),
+            9 => src.push_str(t.s(&["é", "あ", "😀", "日本語", "ß", "\u{301}", "\u{2028}", "\u{feff}", "\u{10ffff}", "\u{a0}", "\u{200d}", "אב", "\u{0}"])),
             10 => {
                 // a complete tag
                 src.push_str(ds);
